@@ -81,6 +81,7 @@ def run(pid, tier):
         for k in range(rng.randint(3, 7)):
             msgs.append(list(b'E?\n') if rng.random() < 0.35 else [65 + rng.randrange(26) for _ in range(rng.randint(1, 11))] + [10])
         scen.append(dict(table=ttab, scripts=tscr, buf=64, qcap=rng.choice([2, 4]), heap=rng.choice([6, 8, 9, 12, 16, 20]), mode='I', chunks=msgs, meta=dict(hdrs=[])))
+    pc.event_traces(rep, 'C01', [s for s in scen if s.get('mode', 'I') == 'I'][::max(1, len(scen) // 4000)], 'C01')   # every call returns, as ScpiInputLoop prescribes
     for b in BUILDS:
         obs = pc.execute(rep, scen, b, 'C01' + b)
         if b == 'default':
